@@ -1,0 +1,7 @@
+//go:build !verif
+
+package network
+
+import mrand "math/rand/v2"
+
+func randIntN(n int) int { return mrand.IntN(n) }
